@@ -12,6 +12,7 @@ FUN1 = ['ABS', 'EXP', 'LN', 'CEILING', 'FLOOR', 'SIN', 'COS', 'TAN', 'SEC', 'CSC
         'COTH', 'ASIN', 'ACOS', 'ATAN', 'ASEC', 'ACSC', 'ACOT', 'ASINH', 'ACOSH', 'ATANH', 'ASECH', 'ACSCH', 'ACOTH']
 FUN2 = ['MIN', 'MAX', 'REM']
 CONST = ['TRUE', 'FALSE', 'E', 'PI', 'INF', 'NAN']
+CONST_VALUES = {}
 VARS = ['x0', 'x1', 'x2', 'x3', 'x4', 'x5']
 NUMS = ['1', '2', '3', '0.5', '2.0', '10', '10.0', '1.0', '0', '7.5', '-1', '-2', '-0.5', '-3.0', '1e2', '2.5e-1', '-1e1', '4', '0.25', '-0.0']
 
@@ -169,8 +170,8 @@ def ev(a, env):
             return ev(a[2], env)
         if t == 'TRUE': return 1.0
         if t == 'FALSE': return 0.0
-        if t == 'E': return math.e
-        if t == 'PI': return math.pi
+        if t == 'E': return CONST_VALUES.get('eString', math.e)
+        if t == 'PI': return CONST_VALUES.get('piString', math.pi)
         if t == 'INF': return math.inf
         if t == 'NAN': return math.nan
         if t == 'MIN': return min2(L(), R())
@@ -318,3 +319,49 @@ def run_c(codes, helpers, workdir):
     for i in range(0, len(codes), B):
         go(list(range(i, min(i + B, len(codes)))))
     return [res[k] for k in range(len(codes))]
+
+
+def systematic():
+    """every parent operator over every kind of operand (depth 2), plus the qualifier / piecewise positions"""
+    a, b, c, d = ('ci', 'x0'), ('ci', 'x1'), ('ci', 'x2'), ('ci', 'x3')
+    def kids(l1, l2):
+        ks = [l1, ('cn', '-2'), ('cn', '2'), ('cn', '-0.0')]
+        for t in REL[:3] + LOGIC + ['PLUS', 'MINUS', 'TIMES', 'DIVIDE', 'POWER', 'MIN']:
+            ks.append((t, l1, l2))
+        ks += [('NOT', l1, None), ('PLUS', l1, None), ('MINUS', l1, None), ('PLUS', ('PLUS', l1, l2), None), ('MINUS', ('cn', '-2'), None),
+               ('MINUS', ('TIMES', l1, l2), None), ('MINUS', ('DIVIDE', l1, l2), None), ('PLUS', ('MINUS', l1, None), None),
+               ('ROOT', l1, None), ('ROOT', ('DEGREE', l2, None), l1), ('LOG', ('LOGBASE', l2, None), l1), ('LOG', ('LOGBASE', ('cn', '10'), None), l1),
+               ('POWER', l1, ('cn', '0.5')), ('SIN', l1, None), ('TIMES', ('cn', '-2'), l1)]
+        ks += [('PIECEWISE', ('PIECE', l1, l2), None), ('PIECEWISE', ('PIECE', l1, l2), ('OTHERWISE', l2, None))]
+        return ks
+    trees = []
+    K1 = kids(a, b); K2 = kids(c, d)
+    for P in REL + LOGIC + ['PLUS', 'MINUS', 'TIMES', 'DIVIDE', 'POWER', 'MIN']:
+        for k1 in K1:
+            for k2 in K2:
+                trees.append((P, k1, k2))
+    for k1 in K1:
+        trees += [('NOT', k1, None), ('PLUS', k1, None), ('MINUS', k1, None), ('ROOT', k1, None), ('SIN', k1, None), ('LOG', k1, None)]
+        for k2 in K2:
+            trees += [('ROOT', ('DEGREE', k1, None), k2), ('LOG', ('LOGBASE', k1, None), k2), ('PIECEWISE', ('PIECE', k1, k2), None),
+                      ('PIECEWISE', ('PIECE', a, b), ('OTHERWISE', k1, None)), ('PIECEWISE', ('PIECE', k1, k2), ('PIECE', c, d)),
+                      ('PIECEWISE', ('PIECE', a, k1), ('PIECEWISE', ('PIECE', k2, d), ('OTHERWISE', c, None)))]
+    return trees
+
+
+def from_json(o):
+    if o is None:
+        return None
+    if o[0] in ('cn', 'ci'):
+        return (o[0], o[1])
+    return (o[0], from_json(o[1]), from_json(o[2]))
+
+
+def discrete(a):
+    """no operation whose result can jump on a rounding difference except comparisons of leaves: a single-valuation
+    mismatch is then a real difference"""
+    if a is None or a[0] in ('cn', 'ci'):
+        return True
+    if a[0] in FUN1 or a[0] in ('POWER', 'ROOT', 'LOG', 'DIVIDE', 'REM', 'E', 'PI'):
+        return False
+    return discrete(a[1]) and discrete(a[2])
